@@ -4,6 +4,7 @@ from engine.preds import canon, Walker
 from .common import *
 from . import shared
 
+import re
 CONFIGS = ['full']
 CONFIGS_THOROUGH = ['full', 'sdp']
 TECHNIQUE = 'stage dataflow over MIR (inferred stage-output/fallback pairing: no stale input after a reducing stage), dominance/path rules on the mirrored reversal, decision tables of the gates'
@@ -16,7 +17,12 @@ EXPLANATION = (
     "presolve then decomposition and post_process applies decomp_reverse before reverse_presolve on the unscaled "
     "variables; decomp_reverse allocates with init_dims, copies x[0..n], dispatches on the same setting as "
     "decomp_augment and completes the dual iff requested; (R3) gates: no decomposition when disabled / no large PSD "
-    "cone / not decomposable; data updates rejected when decomposed.")
+    "cone / not decomposable; data updates rejected when decomposed; (R4) index-space discipline of the compact "
+    "augmentation: the decomposed-row pointer and the overlap pointer are threaded through every cone (passed in and "
+    "assigned back from the matching result component), the clique-to-rows map is based at the decomposed-row pointer "
+    "and not at a row of the original problem, an undecomposed cone moves by (decomposed pointer - original range start) "
+    "in both A and b, and the (i, j) sort key uses as stride the length of the very ordering vector the vertices are "
+    "read from (j*stride + i is injective and column-major only then).")
 ASSUMPTIONS = ['rustc MIR construction and trait resolution are correct',
                'the sdp code is analysed by type-checking only (cargo check with empty blas-src/lapack-src); it is never linked or run']
 
@@ -277,6 +283,102 @@ def gates(rep, F, tag):
     R.guard(body)
 
 
+def index_spaces(rep, F, tag):
+    """The compact augmentation juggles four index spaces: rows of the original A (O), rows of the decomposed A (D),
+    positions in the nonzero arrays, and vertices of a PSD block (V).  The entry positions themselves are index
+    arithmetic and not decided; what is decided is that values cross between spaces only the documented way.
+    Parameters are identified by their role in the caller (the loop-carried pointer that is passed in and assigned
+    back from component .0 / .1 of the result), not by name or position."""
+    R = rep.rule('C18.R4', 'compact augmentation: index-space discipline (decomposed-row pointer vs original row range, vertex-space stride, pointer threading)')
+
+    def body():
+        h = F.one(name='find_compact_A_b_and_cones')
+        # which caller variables are assigned back from the results
+        back = {}
+        for bi, si, st in h.assignments():
+            if st['p']['p']:
+                continue
+            v_ = canon(h.sym_rvalue(st['rv']))
+            if v_.startswith('add_entries_') and v_.rsplit('.', 1)[-1] in ('0', '1'):
+                back.setdefault(v_.split('(')[0], {})[v_.rsplit('.', 1)[-1]] = ('var', st['p']['l'])
+        roles = {}
+        for nm in ('add_entries_with_sparsity_pattern', 'add_entries_with_cone'):
+            cs = calls_named(h, nm)
+            R.check(len(cs) == 1 and nm in back and set(back[nm]) == {'0', '1'}, 'threaded-out|%s%s' % (nm, tag),
+                    'the (row pointer, overlap pointer) pair returned by %s is not assigned back to two loop variables' % nm, h.loc())
+            if len(cs) != 1 or nm not in back or set(back[nm]) != {'0', '1'}:
+                continue
+            pos = {}
+            for comp in ('0', '1'):
+                loc = back[nm][comp][1]
+                hits = [i_ for i_, a in enumerate(cs[0].args) if h.sym_operand(a)[0] == 'var' and h.sym_operand(a)[1] == loc]
+                R.check(len(hits) == 1, 'threaded-in|%s|%s%s' % (nm, comp, tag),
+                        'the variable assigned from component .%s of %s is passed back in at %d positions (expected exactly one): the pointer is not threaded' % (comp, nm, len(hits)), h.loc(cs[0].sp))
+                if len(hits) == 1:
+                    pos[comp] = hits[0] + 1
+            roles[nm] = pos
+        R.check(back.get('add_entries_with_sparsity_pattern') == back.get('add_entries_with_cone') and len(back) == 2, 'threaded-same-vars' + tag,
+                'the two add_entries_* calls thread different variables: %s' % back, h.loc())
+        f = F.one(name='add_entries_with_sparsity_pattern')
+        pr = roles.get('add_entries_with_sparsity_pattern', {}).get('0')
+        if pr:
+            # (a) the clique -> rows map of the *decomposed* problem starts at the running decomposed-row pointer
+            c = one_call(f, 'clique_rows_map')
+            src = f.sym_operand(c.args[0])
+            a0 = canon(src)
+            ok = False
+            if src[0] == 'var':
+                defs = [d for d in f.defs.get(src[1], []) if d[0] == 's' and f.dominates(d[1], c.bb)]
+                first = [canon(f.sym_rvalue(f.blocks[d[1]]['s'][d[2]]['rv'])) for d in defs]
+                ok = first == ['arg%d' % pr]
+            else:
+                ok = a0 == 'arg%d' % pr
+            R.check(ok, 'clique-rows-base' + tag,
+                    'clique_rows_map is based at %s: the row blocks of the decomposed cones start at the running decomposed-row pointer '
+                    '(parameter %d, threaded by the caller), not at a row of the original problem' % (a0, pr), f.loc(c.sp))
+        # (b) the stride of the (i, j) linearisation is the size of the space the vertices live in
+        gb = one_call(f, 'get_block_indices')
+        stride = canon(f.sym_operand(gb.args[2]))
+        maps = [canon(g_.sym_local(0)) for g_ in F.closures_of.get(f.key, [])]
+        vecs = set()
+        for m_ in maps:
+            if m_.startswith('index(') and m_.endswith(', arg2)'):
+                vecs.add(m_[len('index('):-len(', arg2)')].split('.')[-1])
+        R.check(len(vecs) == 1, 'vertex-map' + tag, 'vertices are renumbered through %s (expected one ordering vector)' % sorted(vecs), f.loc())
+        if len(vecs) == 1:
+            v = vecs.pop()
+            R.check(stride.startswith('len(') and stride.endswith('.%s)' % v), 'vertex-stride' + tag,
+                    'get_block_indices is given the stride %s, but the vertices it sorts are entries of `%s` (values below len(%s)): the key '
+                    'j*stride + i orders the entries of a clique correctly only for stride = len(%s)' % (stride, v, v, v), f.loc(gb.sp))
+        g = F.one(name='get_block_indices')
+        keys = [canon(h_.sym_local(0)) for h_ in F.closures_of.get(g.key, [])]
+        norm = [re.sub(r'arg1\._ref__\w+', 'UPVAR', k_.replace('withoverflow', '').replace(').0', ')')) for k_ in keys]
+        R.check(len(keys) == 1 and norm[0] in ('add(mul(arg2.1, UPVAR), arg2.0)', 'add(mul(UPVAR, arg2.1), arg2.0)', 'add(arg2.0, mul(arg2.1, UPVAR))', 'add(arg2.0, mul(UPVAR, arg2.1))'),
+                'sort-key' + tag, 'get_block_indices sorts by %s, expected column-major j*stride + i' % keys, g.loc())
+        sk = calls_named(g, 'sort_by_cached_key') + calls_named(g, 'sort_by_key')
+        R.check(len(sk) == 1 and canon(g.sym_operand(sk[0].args[1])) == 'closure(arg3)', 'sort-key-stride' + tag,
+                'the stride captured by the sort key is not the vertex-count argument (closure captures %s)' % [canon(g.sym_operand(x.args[1])) for x in sk], g.loc())
+        # (d) a cone that is not decomposed moves by the difference of the two spaces
+        k = F.one(name='add_entries_with_cone')
+        kr = roles.get('add_entries_with_cone', {})
+        if kr.get('0') and kr.get('1'):
+            offs = set()
+            for bi, si, st in k.assignments():
+                if st['p']['p']:
+                    v_ = canon(k.sym_rvalue(st['rv'])).replace('withoverflow', '').replace(').0', ')')
+                    m_ = re.search(r'checked_add_signed\(index\((arg\d+)\.(rowval|nzind), .*\), (sub\(.*\))\)\)$', v_)
+                    if m_:
+                        offs.add(m_.group(3))
+            want = re.compile(r'sub\(arg%d, arg\d+\.start\)' % kr['0'])
+            R.check(len(offs) == 1 and all(want.fullmatch(o) for o in offs), 'cone-offset' + tag,
+                    'add_entries_with_cone shifts the rows of A and b by %s, expected (decomposed-row pointer) - (original row range).start for both' % sorted(offs), k.loc())
+            ret = canon(k.sym_local(0)).replace('withoverflow', '').replace(').0', ')')
+            R.check(re.fullmatch(r'tuple\((add\(arg%d, nvars\(arg\d+\)\)|add\(nvars\(arg\d+\), arg%d\)), arg%d\)' % (kr['0'], kr['0'], kr['1']), ret) is not None,
+                    'cone-advance' + tag, 'add_entries_with_cone returns %s, expected (row pointer + cone.nvars(), overlap pointer)' % ret, k.loc())
+
+    R.guard(body)
+
+
 def run(ctx, rep, tier):
     stage_rules(ctx, rep, 'C18.R1')
     for cfg in (CONFIGS_THOROUGH if tier == 'thorough' else CONFIGS):
@@ -284,6 +386,7 @@ def run(ctx, rep, tier):
         tag = '[%s]' % cfg
         reversal_shape(rep, F, tag)
         gates(rep, F, tag)
+        index_spaces(rep, F, tag)
     from . import c05
     for cfg in CONFIGS:
         c05.hash_order(rep, ctx.facts(cfg), ctx.cg(cfg), '[%s]' % cfg)
